@@ -1,9 +1,26 @@
 // C25 — wrong passwords are rejected and password changes take effect.
-// Random histories of encrypt / change owner pw / change user pw / set permissions / decrypt with
-// right and wrong credentials against a reference model (upw, opw, P, alg | not encrypted); after
-// every step every password ever used plus two fresh ones is offered as user and as owner
-// password: exactly the model's current passwords open the file, everything else gives
-// ErrWrongPassword and no context.
+//
+// Layer 1 (owner clause, deterministic matrix): for every algorithm (RC4-40, RC4-128, AES-128,
+// AES-256 on a PDF 1.7 document, AES-256 on a PDF 2.0 document) a document with distinct user and
+// owner passwords (and one with an empty user password); change-user / change-owner /
+// set-permissions are attempted with the USER password in both slots, in the user slot only and in
+// the owner slot only: every attempt must fail, leave the file byte-identical and leave passwords
+// and permissions as they were; then each change is made with the right credentials and must take
+// effect (new password opens in its slot, the replaced one is rejected in both slots).
+//
+// Layer 2 (histories): random histories of encrypt / change owner pw / change user pw / set
+// permissions / decrypt with right and wrong credentials against a reference model
+// (upw, opw, P, alg | not encrypted); after every step every password ever used plus two fresh
+// ones is offered as user and as owner password.
+//
+// The oracle is three-valued and demands exactly what the property says:
+//
+//	must-fail   a change without the current owner password in either slot; an open / decrypt
+//	            with neither current password in either slot (ErrWrongPassword, no context)
+//	must-succeed fully right credentials in the right slots (a current password opens in its slot)
+//	unconstrained everything in between (owner password present but user password wrong, a current
+//	            password in the other slot, operations on a document that is not encrypted):
+//	            observed and counted, a failed operation must leave the file unchanged
 package main
 
 import (
@@ -50,11 +67,25 @@ type state struct {
 	Alg      algo
 }
 
-// ownerOK / userOK: what supplying (U, O) authenticates, as the standard security handler
-// defines it and pdfcpu documents it: an empty owner-password field falls back to the user
-// password field for revisions 2-4 (Algorithm 3 step (a)); revisions 5/6 have no fallback.
+// expectation of one operation / one open
+type exp int
+
+const (
+	mustFail exp = iota
+	mustOK
+	unconstrained
+)
+
+func (e exp) String() string { return [...]string{"must-fail", "must-succeed", "unconstrained"}[e] }
+
+func (s state) fallback() bool { return s.Alg.KeyLen != 256 }
+
+// ownerOK / userOK: what supplying (U, O) authenticates in the slots' own meaning, as the standard
+// security handler defines it and pdfcpu documents it ("opw ... required unless = \"\""): for
+// revisions 2-4 an empty owner-password field means "no owner password", for which Algorithm 3
+// step (a) uses the user password; revisions 5/6 have no fallback.
 func (s state) ownerOK(u, o string) bool {
-	if s.Alg.KeyLen == 256 {
+	if !s.fallback() {
 		return o != "" && o == s.OPW
 	}
 	if o == "" {
@@ -64,12 +95,50 @@ func (s state) ownerOK(u, o string) bool {
 }
 func (s state) userOK(u string) bool { return u == s.UPW }
 
-// opens: does supplying (U, O) open the document for reading?
-func (s state) opens(u, o string) bool { return !s.Enc || s.ownerOK(u, o) || s.userOK(u) }
+// anyCurrent: one of the two offered strings IS the current user or owner password (in whatever
+// slot). The property's "neither its user nor its owner password" is the negation.
+func (s state) anyCurrent(u, o string) bool {
+	return u == s.UPW || u == s.OPW || o == s.UPW || o == s.OPW
+}
 
-// changeOK: may a password/permission change proceed? pdfcpu documents that it needs both
-// current passwords; the property demands at least the owner password.
-func (s state) changeOK(u, o string) bool { return s.Enc && s.ownerOK(u, o) && s.userOK(u) }
+// hasOwner: the current owner password was offered (in whatever slot).
+func (s state) hasOwner(u, o string) bool { return u == s.OPW || o == s.OPW }
+
+// expectOpen: opening / decrypting with (U, O).
+func (s state) expectOpen(u, o string) exp {
+	switch {
+	case !s.Enc:
+		return mustOK
+	case s.userOK(u) || (o != "" && o == s.OPW):
+		return mustOK // a current password in its own slot
+	case !s.anyCurrent(u, o):
+		return mustFail // neither password
+	}
+	return unconstrained // a current password in the other slot (revisions 2-4: the documented fallback)
+}
+
+// expectChange: a password / permission change with (U, O). pdfcpu documents that it needs both
+// current passwords; the property demands the owner password.
+func (s state) expectChange(u, o string) exp {
+	switch {
+	case !s.Enc:
+		return unconstrained
+	case !s.hasOwner(u, o):
+		return mustFail
+	case s.ownerOK(u, o) && s.userOK(u):
+		return mustOK
+	}
+	return unconstrained
+}
+
+// effectiveOwner: the owner password a rewrite of the encryption dictionary stores when the
+// owner-password field holds o and the user password (after the change) is u.
+func (s state) effectiveOwner(u, o string) string {
+	if o == "" && s.fallback() {
+		return u
+	}
+	return o
+}
 
 type step struct {
 	Op     string `json:"op"`
@@ -79,7 +148,7 @@ type step struct {
 	New    string `json:"new_pw,omitempty"`
 	Perm   string `json:"perm,omitempty"`
 	Cred   string `json:"cred_class"`
-	WantOK bool   `json:"model_predicts_success"`
+	Expect string `json:"expectation"`
 	Got    string `json:"got"`
 }
 
@@ -159,6 +228,192 @@ func open(file, u, o string) (*model.Context, error) {
 	return ctx, err
 }
 
+func changeUser(file string, a algo, u, o, np string) error {
+	return safely(func() error { return api.ChangeUserPasswordFile(file, "", u, np, a.conf(u, o)) })
+}
+
+func changeOwner(file string, a algo, u, o, np string) error {
+	return safely(func() error { return api.ChangeOwnerPasswordFile(file, "", o, np, a.conf(u, o)) })
+}
+
+func setPerm(file string, a algo, u, o string, p model.PermissionFlags) error {
+	conf := a.conf(u, o)
+	conf.Permissions = p
+	return safely(func() error { return api.SetPermissionsFile(file, "", conf) })
+}
+
+func getPerm(file string, a algo, u, o string) (uint16, error) {
+	var p *int16
+	err := safely(func() error { var e error; p, e = api.GetPermissionsFile(file, a.conf(u, o)); return e })
+	if err != nil {
+		return 0, err
+	}
+	if p == nil {
+		return 0, errors.New("no permissions reported")
+	}
+	return uint16(*p), nil
+}
+
+// ---- layer 1: the owner clause, user password in every slot, every algorithm -----------------
+
+type matrixCase struct {
+	Doc, Alg, Shape string
+	UPW, OPW        string
+	Op, Cred, U, O  string
+	Got             string
+}
+
+func ownerClause(t *vk.T, unit int, dir string, docs []string) {
+	type cfg struct {
+		a     algo
+		doc   string
+		label string
+	}
+	cfgs := []cfg{}
+	for _, a := range algos {
+		cfgs = append(cfgs, cfg{a, docs[0], a.Name})
+	}
+	cfgs = append(cfgs, cfg{algos[3], docs[1], "AES-256/pdf20"})
+	c := cfgs[unit/2]
+	shape := []string{"distinct", "empty-user"}[unit%2]
+	rng := t.RNGi("owner-clause", unit)
+	upw, opw := "u"+randPW(rng), "o"+randPW(rng)
+	if shape == "empty-user" {
+		upw = ""
+	}
+	perm := randPerm(rng)
+	file := filepath.Join(dir, fmt.Sprintf("oc-%d.pdf", unit))
+	raw, err := os.ReadFile(c.doc)
+	if err != nil {
+		t.Broken("%v", err)
+	}
+	if err := os.WriteFile(file, raw, 0o644); err != nil {
+		t.Broken("%v", err)
+	}
+	defer os.Remove(file)
+	mc := matrixCase{Doc: filepath.Base(c.doc), Alg: c.label, Shape: shape, UPW: upw, OPW: opw}
+	conf := c.a.conf(upw, opw)
+	conf.Permissions = perm
+	if err := safely(func() error { return api.EncryptFile(file, "", conf) }); err != nil {
+		mc.Got = errClass(err)
+		t.Violate(fmt.Sprintf("owner-clause/setup/encrypt/alg=%s/got=%s", c.label, mc.Got), "encrypting with a user and an owner password failed: "+err.Error(), mc)
+		return
+	}
+	encrypted, _ := os.ReadFile(file)
+
+	// unchanged: the passwords and permissions are those of the encryption
+	unchanged := func(after string) bool {
+		for _, pr := range []struct {
+			u, o string
+			want bool
+			what string
+		}{{upw, "", true, "user-pw"}, {"", opw, true, "owner-pw"}, {"N1x", "", false, "new-pw-as-user"}, {"", "N1x", false, "new-pw-as-owner"}} {
+			if !pr.want && upw == "" {
+				continue // the other slot holds the (empty) user password: not "neither", unconstrained
+			}
+			ctx, err := open(file, pr.u, pr.o)
+			t.Eval("")
+			if (err == nil) != pr.want || (err != nil && ctx != nil) {
+				mc.Got = errClass(err)
+				t.Violate(fmt.Sprintf("owner-clause/alg=%s/after=%s/%s/got=%s", c.label, after, pr.what, mc.Got), fmt.Sprintf("after %s: opening with (%q,%q): %v", after, pr.u, pr.o, err), mc)
+				return false
+			}
+		}
+		p, err := getPerm(file, c.a, upw, opw)
+		if err != nil || p != uint16(perm) {
+			t.Violate(fmt.Sprintf("owner-clause/alg=%s/after=%s/permissions-changed", c.label, after), fmt.Sprintf("after %s: permissions %04X (%v), set %04X", after, p, err, uint16(perm)), mc)
+			return false
+		}
+		return true
+	}
+
+	creds := []struct{ name, u, o string }{{"user-pw-in-both-slots", upw, upw}, {"user-pw-in-user-slot", upw, ""}, {"user-pw-in-owner-slot", "", upw}}
+	if shape == "empty-user" {
+		creds = creds[:1] // all three are ("", "")
+	}
+	for _, op := range []string{"change-user", "change-owner", "set-permissions"} {
+		for _, cr := range creds {
+			var err error
+			switch op {
+			case "change-user":
+				err = changeUser(file, c.a, cr.u, cr.o, "N1x")
+			case "change-owner":
+				err = changeOwner(file, c.a, cr.u, cr.o, "N1x")
+			case "set-permissions":
+				err = setPerm(file, c.a, cr.u, cr.o, perm^0x0F3C)
+			}
+			mc.Op, mc.Cred, mc.U, mc.O, mc.Got = op, cr.name, cr.u, cr.o, errClass(err)
+			t.Eval(fmt.Sprintf("oc|%s|%s|%s|%s", c.label, shape, op, cr.name))
+			t.Count("owner_clause/refusals/"+mc.Got, 1)
+			key := fmt.Sprintf("owner-clause/op=%s/alg=%s/upw=%s/cred=%s", op, c.label, shape, cr.name)
+			after, _ := os.ReadFile(file)
+			switch {
+			case err == nil:
+				t.Violate(key+"/got=ok", "the change succeeded although only the user password was supplied (the current owner password is required)", mc)
+				return
+			case !bytes.Equal(after, encrypted):
+				t.Violate(key+"/refused-but-file-changed", "the change was refused ("+mc.Got+") but the file is not byte-identical to before", mc)
+				return
+			}
+		}
+	}
+	if !unchanged("refused-changes") {
+		return
+	}
+
+	// positive control: with the right credentials every change takes effect and only the new password works
+	mc.Cred, mc.U, mc.O = "both-right", upw, opw
+	fail := func(op string, err error) {
+		mc.Op, mc.Got = op, errClass(err)
+		t.Violate(fmt.Sprintf("owner-clause/op=%s/alg=%s/upw=%s/cred=both-right/got=%s", op, c.label, shape, mc.Got), "the change failed although both current passwords were supplied: "+err.Error(), mc)
+	}
+	opened := func(what, u, o string, want bool) bool {
+		ctx, err := open(file, u, o)
+		t.Eval("")
+		if (err == nil) == want && (err == nil || (ctx == nil && errors.Is(err, pdfcpu.ErrWrongPassword))) {
+			return true
+		}
+		mc.Got = errClass(err)
+		t.Violate(fmt.Sprintf("owner-clause/alg=%s/upw=%s/after=%s/want-open=%v/got=%s", c.label, shape, what, want, mc.Got), fmt.Sprintf("%s: opening with (%q,%q): %v", what, u, o, err), mc)
+		return false
+	}
+	perm2 := perm ^ 0x0804
+	if err := setPerm(file, c.a, upw, opw, perm2); err != nil {
+		fail("set-permissions", err)
+		return
+	}
+	t.Eval(fmt.Sprintf("oc|%s|%s|set-permissions|both-right", c.label, shape))
+	if p, err := getPerm(file, c.a, upw, opw); err != nil || p != uint16(perm2) {
+		t.Violate(fmt.Sprintf("owner-clause/alg=%s/after=set-permissions/permissions-not-in-effect", c.label), fmt.Sprintf("permissions %04X (%v), set %04X", p, err, uint16(perm2)), mc)
+		return
+	}
+	if err := changeUser(file, c.a, upw, opw, "N2u"); err != nil {
+		fail("change-user", err)
+		return
+	}
+	t.Eval(fmt.Sprintf("oc|%s|%s|change-user|both-right", c.label, shape))
+	mc.Op = "change-user"
+	if !opened("change-user/new-user-pw", "N2u", "", true) || !opened("change-user/owner-pw", "", opw, true) ||
+		!opened("change-user/old-user-pw-as-user", upw, "", false) || (upw != "" && !opened("change-user/old-user-pw-as-owner", "", upw, false)) {
+		return
+	}
+	if err := changeOwner(file, c.a, "N2u", opw, "N3o"); err != nil {
+		fail("change-owner", err)
+		return
+	}
+	t.Eval(fmt.Sprintf("oc|%s|%s|change-owner|both-right", c.label, shape))
+	mc.Op = "change-owner"
+	if !opened("change-owner/new-owner-pw", "", "N3o", true) || !opened("change-owner/user-pw", "N2u", "", true) ||
+		!opened("change-owner/old-owner-pw-as-owner", "", opw, false) || !opened("change-owner/old-owner-pw-as-user", opw, "", false) {
+		return
+	}
+	if unit < 2 {
+		t.Sample(mc)
+	}
+}
+
+// ---- layer 2: histories --------------------------------------------------------------------------
+
 func runSequence(t *vk.T, idx int, dir string, docs []string) {
 	rng := t.RNGi("seq", idx)
 	doc := docs[0]
@@ -200,7 +455,7 @@ func runSequence(t *vk.T, idx int, dir string, docs []string) {
 		}
 		// credentials
 		var u, o, cred string
-		switch c := rng.IntN(20); {
+		switch c := rng.IntN(24); {
 		case c < 10 || !st.Enc:
 			u, o, cred = st.UPW, st.OPW, "both-right"
 		case c < 12:
@@ -213,13 +468,17 @@ func runSequence(t *vk.T, idx int, dir string, docs []string) {
 			u, o, cred = "", st.OPW, "user-empty"
 		case c < 18:
 			u, o, cred = st.OPW, st.UPW, "swapped"
+		case c < 20:
+			u, o, cred = st.UPW, st.UPW, "user-pw-in-both-slots"
+		case c < 22:
+			u, o, cred = "", st.UPW, "user-pw-in-owner-slot"
 		default:
 			u, o, cred = randPW(rng), randPW(rng), "both-fresh"
 		}
 		s := step{Op: op, U: u, O: o, Cred: cred}
 		before, _ := os.ReadFile(file)
 		next := st
-		var want bool
+		var want exp
 		var err error
 		switch op {
 		case "encrypt":
@@ -241,10 +500,13 @@ func runSequence(t *vk.T, idx int, dir string, docs []string) {
 			conf := a.conf(nu, no)
 			conf.Permissions = perm
 			// documented: encryption needs an owner password; PDF 2.0 needs AES-256; encrypted input is refused
-			want = !st.Enc && no != "" && (!pdf20 || a.KeyLen == 256)
+			want = mustFail
+			if !st.Enc && no != "" && (!pdf20 || a.KeyLen == 256) {
+				want = mustOK
+			}
 			next = state{Enc: true, UPW: nu, OPW: no, Perm: perm, Alg: a}
 			err = safely(func() error { return api.EncryptFile(file, "", conf) })
-			if want {
+			if want == mustOK {
 				note(nu, "user")
 				note(no, "owner")
 			}
@@ -254,13 +516,15 @@ func runSequence(t *vk.T, idx int, dir string, docs []string) {
 				np = ""
 			}
 			s.New = np
-			want = st.changeOK(u, o) && np != ""
+			want = st.expectChange(u, o)
+			if np == "" && want == mustOK {
+				want = unconstrained // pdfcpu documents a non-empty new owner password; the property is silent
+			}
 			next.OPW = np
-			conf := st.Alg.conf(u, o)
-			err = safely(func() error { return api.ChangeOwnerPasswordFile(file, "", o, np, conf) })
+			err = changeOwner(file, st.Alg, u, o, np)
 			note(o, "wrong-credential")
 			note(u, "wrong-credential")
-			if want {
+			if err == nil {
 				note(np, "owner")
 			}
 		case "change-user":
@@ -269,34 +533,39 @@ func runSequence(t *vk.T, idx int, dir string, docs []string) {
 				np = ""
 			}
 			s.New = np
-			want = st.changeOK(u, o)
+			want = st.expectChange(u, o)
 			next.UPW = np
-			conf := st.Alg.conf(u, o)
-			err = safely(func() error { return api.ChangeUserPasswordFile(file, "", u, np, conf) })
+			// the rewrite stores the owner password of the owner-password field; an empty field
+			// (revisions 2-4, only authorised when user pw = owner pw) means "no owner password":
+			// Algorithm 3 (a) then uses the (new) user password
+			next.OPW = st.effectiveOwner(np, o)
+			err = changeUser(file, st.Alg, u, o, np)
 			note(o, "wrong-credential")
 			note(u, "wrong-credential")
-			if want {
+			if err == nil {
 				note(np, "user")
 			}
 		case "set-permissions":
 			perm := randPerm(rng)
 			s.Perm = fmt.Sprintf("%04X", uint16(perm))
-			want = st.changeOK(u, o)
+			want = st.expectChange(u, o)
 			next.Perm = perm
-			conf := st.Alg.conf(u, o)
-			conf.Permissions = perm
-			err = safely(func() error { return api.SetPermissionsFile(file, "", conf) })
+			next.OPW = st.effectiveOwner(u, o)
+			err = setPerm(file, st.Alg, u, o, perm)
 			note(o, "wrong-credential")
 			note(u, "wrong-credential")
 		case "decrypt":
-			want = st.Enc && st.opens(u, o)
+			want = st.expectOpen(u, o)
+			if !st.Enc {
+				want = unconstrained // pdfcpu documents ErrNotEncrypted; the property is silent
+			}
 			next = state{}
 			conf := st.Alg.conf(u, o)
 			err = safely(func() error { return api.DecryptFile(file, "", conf) })
 			note(o, "wrong-credential")
 			note(u, "wrong-credential")
 		}
-		s.WantOK, s.Got = want, errClass(err)
+		s.Expect, s.Got = want.String(), errClass(err)
 		h.Steps = append(h.Steps, s)
 		algName := revGroup(st.Enc, st.Alg)
 		if op == "encrypt" {
@@ -306,29 +575,40 @@ func runSequence(t *vk.T, idx int, dir string, docs []string) {
 			}
 		}
 		t.Eval(fmt.Sprintf("%d/%d|%s|%s|%s|%v", idx, k, op, algName, cred, want))
-		t.Count("steps/"+op+"/"+ifs(want, "model-ok", "model-fail"), 1)
+		t.Count("steps/"+op+"/"+want.String(), 1)
 		t.Count("step_outcomes/"+s.Got, 1)
 		after, _ := os.ReadFile(file)
 		switch {
-		case want && err != nil:
-			t.Violate(fmt.Sprintf("step/op=%s/rev=%s/cred=%s/want=ok/got=%s", op, algName, cred, s.Got), fmt.Sprintf("model predicts success: %v", err), h)
+		case want == mustOK && err != nil:
+			t.Violate(fmt.Sprintf("step/op=%s/rev=%s/cred=%s/want=ok/got=%s", op, algName, cred, s.Got), fmt.Sprintf("right credentials, the operation must succeed: %v", err), h)
 			return
-		case !want && err == nil:
-			t.Violate(fmt.Sprintf("step/op=%s/rev=%s/cred=%s/want=fail/got=ok", op, algName, cred), "operation succeeded although the model (credentials/state) predicts failure", h)
+		case want == mustFail && err == nil:
+			t.Violate(fmt.Sprintf("step/op=%s/rev=%s/cred=%s/want=fail/got=ok", op, algName, cred), "operation succeeded although it must fail (change: no slot holds the current owner password; decrypt: no slot holds a current password; encrypt: documented precondition not met)", h)
 			return
-		case !want && !bytes.Equal(before, after):
+		case err != nil && !bytes.Equal(before, after):
 			t.Violate(fmt.Sprintf("step/op=%s/failed-but-file-changed", op), "the operation failed but the file is not byte-identical to before", h)
 			return
 		}
-		if want {
+		if want == unconstrained {
+			t.Count(fmt.Sprintf("unconstrained_steps/op=%s/rev=%s/cred=%s/%s", op, algName, cred, ifs(err == nil, "succeeded", "failed")), 1)
+			if err == nil && st.Enc && op != "decrypt" {
+				// a change the property neither demands nor forbids went through with credentials the
+				// model has no documented semantics for: the resulting passwords are not predictable
+				t.Count("sequences_ended_at_unconstrained_success", 1)
+				return
+			}
+			if err == nil && !st.Enc {
+				next = st // must still be a document without encryption (the probes below check that)
+			}
+		}
+		if err == nil {
 			st = next
 		}
 		// the changed permissions must be in effect
-		if want && st.Enc {
-			var p *int16
-			e := safely(func() error { var e error; p, e = api.GetPermissionsFile(file, st.Alg.conf(st.UPW, st.OPW)); return e })
-			if e != nil || p == nil || uint16(*p) != uint16(st.Perm) {
-				t.Violate(fmt.Sprintf("after/op=%s/rev=%s/permissions-not-in-effect", op, revGroup(true, st.Alg)), fmt.Sprintf("GetPermissionsFile: %v %v, model %04X", p, e, uint16(st.Perm)), h)
+		if err == nil && st.Enc {
+			p, e := getPerm(file, st.Alg, st.UPW, st.OPW)
+			if e != nil || p != uint16(st.Perm) {
+				t.Violate(fmt.Sprintf("after/op=%s/rev=%s/permissions-not-in-effect", op, revGroup(true, st.Alg)), fmt.Sprintf("GetPermissionsFile: %04X %v, model %04X", p, e, uint16(st.Perm)), h)
 				return
 			}
 		}
@@ -362,27 +642,30 @@ func runSequence(t *vk.T, idx int, dir string, docs []string) {
 				if slot == "owner" {
 					pu, po = "", p
 				}
-				want := st.opens(pu, po)
+				want := st.expectOpen(pu, po)
 				ctx, err := open(file, pu, po)
 				t.Eval("")
-				t.Count("probes/"+ifs(want, "must-open", "must-reject"), 1)
+				t.Count("probes/"+want.String(), 1)
 				alg := revGroup(st.Enc, st.Alg)
 				hh := h
 				hh.Probe = fmt.Sprintf("after step %d: password %q (%s) as %s password: %s", k, p, rel, slot, errClass(err))
 				key := fmt.Sprintf("probe/rev=%s/pw=%s/slot=%s", alg, rel, slot)
 				switch {
-				case want && err != nil:
+				case want == mustOK && err != nil:
 					t.Violate(key+"/want=open/got="+errClass(err), hh.Probe+": "+err.Error(), hh)
 					return
-				case !want && err == nil:
+				case want == mustFail && err == nil:
 					t.Violate(key+"/want=reject/got=open", hh.Probe, hh)
 					return
-				case !want && !errors.Is(err, pdfcpu.ErrWrongPassword):
+				case want == mustFail && !errors.Is(err, pdfcpu.ErrWrongPassword):
 					t.Violate(key+"/rejected-with="+errClass(err), hh.Probe+": not ErrWrongPassword: "+err.Error(), hh)
 					return
-				case !want && ctx != nil:
+				case err != nil && ctx != nil:
 					t.Violate(key+"/context-returned-with-error", hh.Probe, hh)
 					return
+				}
+				if want == unconstrained {
+					t.Count(fmt.Sprintf("unconstrained_probes/rev=%s/pw=%s/slot=%s/%s", alg, rel, slot, ifs(err == nil, "opened", "rejected")), 1)
 				}
 			}
 		}
@@ -413,11 +696,11 @@ func ifs(c bool, a, b string) string {
 func main() {
 	vk.Run("C25", "exploration", func(t *vk.T) {
 		api.DisableConfigDir()
-		t.Rule("random histories (1-8 steps) over encrypt/change-owner/change-user/set-permissions/decrypt x 4 algorithms x right/wrong/empty/swapped credentials from a 4-password pool (so equal and recycled passwords are frequent), on a PDF 1.7 and a PDF 2.0 corpus document; after every step each password ever used + 2 fresh ones is offered as user and as owner password; non-trivial = distinct (sequence, step, op, alg, credential class, predicted outcome)")
-		t.Assume("pdfcpu documents: encryption needs a non-empty owner password (ErrOwnerPasswordRequired; the spec would fall back to the user password), the new owner password of a change must be non-empty, PDF 2.0 needs AES-256, an already encrypted file cannot be encrypted again")
-		t.Assume("pdfcpu documents that changing passwords or permissions needs BOTH current passwords (property: at least the owner password); the model predicts success only then")
-		t.Assume("decrypting needs any password that opens the document (user or owner); the property does not restrict it further")
-		t.Assume("for revisions 2-4 an empty owner-password field falls back to the user-password field (Algorithm 3 step (a)); passwords are ASCII alphanumerics of 1-10 bytes so that string equality is password equality under every revision")
+		t.Rule("(1) owner clause: 5 algorithm/version configurations x {distinct passwords, empty user password} x {change-user, change-owner, set-permissions} x user password in {both slots, user slot, owner slot}: refused, file and passwords unchanged; then the same changes with both right passwords take effect. (2) random histories (1-8 steps) over encrypt/change-owner/change-user/set-permissions/decrypt x 4 algorithms x right/wrong/empty/swapped/user-pw-as-owner credentials from a 4-password pool (so equal and recycled passwords are frequent), on a PDF 1.7 and a PDF 2.0 corpus document; after every step each password ever used + 2 fresh ones is offered as user and as owner password; non-trivial = distinct (sequence, step, op, alg, credential class, expectation)")
+		t.Assume("three-valued oracle: must-fail = the property's clauses (change without the current owner password in any slot; open/decrypt with neither current password in any slot); must-succeed = both right passwords in their own slots (open: a current password in its own slot); everything else is unconstrained (observed, counted under unconstrained_*; a sequence whose unconstrained change succeeds ends there)")
+		t.Assume("pdfcpu documents: encryption needs a non-empty owner password (ErrOwnerPasswordRequired), PDF 2.0 needs AES-256, an already encrypted file cannot be encrypted again; these three decide whether an encrypt step is expected to succeed")
+		t.Assume("for revisions 2-4 an empty owner-password field means 'no owner password' and Algorithm 3 step (a) substitutes the user password, when authenticating AND when /O is rewritten: change-user with an empty owner field (authorised only if user pw = owner pw) leaves a document whose owner password is the new user password (CLI help: 'opw ... required unless = \"\"')")
+		t.Assume("passwords are ASCII alphanumerics of 1-10 bytes (+ one marker byte) so that string equality is password equality under every revision")
 		docs := []string{filepath.Join(vk.RepoDir(), "pkg", "testdata", "test.pdf"), filepath.Join(vk.RepoDir(), "pkg", "testdata", "pdf20", "SimplePDF2.0.pdf")}
 		for _, d := range docs {
 			c := model.NewDefaultConfiguration()
@@ -427,6 +710,8 @@ func main() {
 			}
 		}
 		dir := t.Scratch()
+		vk.Parallel(10, func(i int) { ownerClause(t, i, dir, docs) })
+		t.Count("owner_clause/units", 10)
 		n := t.Pick(150, 3000)
 		vk.Parallel(n, func(i int) { runSequence(t, i, dir, docs) })
 		t.Count("sequences", int64(n))
